@@ -1,5 +1,6 @@
 """C10 -- a failed or cancelled command never feeds dependents and is always retried."""
 import copy
+import shutil
 
 from hypothesis import strategies as st
 
@@ -36,6 +37,14 @@ def budget(tier):
 @st.composite
 def case(draw):
     desc = draw(bm.description(max_cmds=8, allow_extra_tools=True))
+    # some symlink commands put their link beneath a directory of their own, so that creating the link can be
+    # made to fail (a regular file where that directory should be)
+    for c in desc["commands"]:
+        if c["tool"] == "symlink" and draw(st.booleans()):
+            old = c["outputs"][0]
+            new = "lk_%s/%s" % (old, old)
+            rename_node(desc, old, new)
+            c["contents"] = "../" + c["contents"]
     shells = [c["name"] for c in desc["commands"] if c["tool"] == "shell"]
     if draw(st.integers(0, 3)) != 0:
         # a target that needs everything, so that faulted commands have dependents AND siblings
@@ -55,6 +64,10 @@ def case(draw):
         first = draw(st.sampled_from(with_deps))
         order = [first] + [c for c in order if c != first]
     faulted = {c: draw(st.sampled_from(FAULTS)) for c in order[:nf]}
+    blockable = [c["name"] for c in bm.needed_commands(desc, desc["targets"][target])
+                 if c["tool"] == "symlink" and "/" in c["outputs"][0]]
+    if blockable and draw(st.booleans()):
+        faulted[draw(st.sampled_from(blockable))] = "blockdir"
     jobs = draw(st.sampled_from([None, 4, 4]))
     slow = {}
     if jobs:
@@ -71,6 +84,17 @@ def case(draw):
             "edits": edits, "keep_going": draw(st.booleans()),
             # every build of the case through ONE BuildSystemFrontend (reset and reused after the failure)
             "same_process": draw(st.booleans())}
+
+
+def rename_node(desc, old, new):
+    for c in desc["commands"]:
+        c["outputs"] = [new if o == old else o for o in c["outputs"]]
+        if "inputs" in c:
+            c["inputs"] = [new if i == old else i for i in c["inputs"]]
+        if c.get("contents") == old:
+            c["contents"] = new
+    for t in desc["targets"]:
+        desc["targets"][t] = [new if n == old else n for n in desc["targets"][t]]
 
 
 def strategy(tier):
@@ -128,8 +152,17 @@ def run_case(case, ctx, verbose=False):
             for e in case["edits"]:
                 ws.write(e["path"], e["text"])
             cls.append("after-successful-build")
+        byname_all = {c["name"]: c for c in desc["commands"]}
+        blocked = {}
         for c, f in list(case["faults"].items()) + list(case["slow"].items()):
-            ws.set_fault(c, f)
+            if f == "blockdir":
+                # a regular file where the directory of the link should be
+                d = byname_all[c]["outputs"][0].split("/")[0]
+                shutil.rmtree(ws.path(d), ignore_errors=True)
+                ws.write(d, "in the way\n")
+                blocked[c] = d
+            else:
+                ws.set_fault(c, f)
         r1 = build(keep_going=case.get("keep_going", False))
         if r1.timed_out:
             return Outcome("faulted build hung")
@@ -139,8 +172,16 @@ def run_case(case, ctx, verbose=False):
         done = {c for c, w in r1.log if w == "done"}
         failed = {c for c, w in r1.log if w == "fail"}
         cancelled = {c for c in started if c not in done and c not in failed}
-        bad = failed | cancelled
-        faulted_ran = [c for c in case["faults"] if c in started]
+        # commands that are not run through vtool (symlink): the delegate's events tell
+        ev_started = {bm.unhx(e[1]) for e in r1.events if e[0] == "started"}
+        ev_failed = {bm.unhx(e[1]) for e in r1.events if e[0] == "finished" and len(e) > 2 and e[2] == "1"}
+        sym_failed = {c for c in blocked if c in ev_failed}
+        for c in blocked:
+            if c in ev_started and c not in ev_failed:
+                return Outcome("symlink command %s reported success although its link cannot be created (a regular file "
+                               "is where its directory should be)" % c, classes=cls)
+        bad = failed | cancelled | sym_failed
+        faulted_ran = [c for c in case["faults"] if c in started or c in sym_failed]
         if faulted_ran and r1.ok:
             return Outcome("commands %s failed but the build reported success" % faulted_ran, classes=cls)
         if not faulted_ran and not r1.ok:
@@ -157,11 +198,14 @@ def run_case(case, ctx, verbose=False):
                                "same build (log: %s)" % (x, sorted(culprits), r1.log), classes=cls)
         # repaired build
         for c in list(case["faults"]) + list(case["slow"]):
-            ws.set_fault(c, None)
+            if c in blocked:
+                ws.delete(blocked[c])
+            else:
+                ws.set_fault(c, None)
         r2 = build()
         if not r2.ok:
             return Outcome("build after lifting the fault failed: rc=%s %s" % (r2.rc, r2.stderr[-400:]), classes=cls)
-        started2 = {c for c, w in r2.log if w == "start"}
+        started2 = {c for c, w in r2.log if w == "start"} | {bm.unhx(e[1]) for e in r2.events if e[0] == "started"}
         missing = [c for c in bad if c not in started2]
         if missing:
             return Outcome("commands %s failed or were cancelled but were not re-attempted by the next build "
